@@ -39,6 +39,11 @@ func (w *fileWriter) file(file *model.File) error {
 
 	for _, imp := range file.Imports {
 		pkg := importPackage(imp)
+		if imp.Name != imp.Package.Name {
+			// Types are referenced by the import alias
+			w.linef(`%v "%v"`, imp.Name, pkg)
+			continue
+		}
 		w.linef(`"%v"`, pkg)
 	}
 	w.line(")")
